@@ -769,14 +769,20 @@ func (c *Ctx) SessionLifecycle(prop string) {
 		// the age that is tested is the age since the generation was created: the field read by the expiry test is written only
 		// where a session object is built (a store into an object allocated in the same function), never on a later message
 		started := map[string]bool{}
-		for _, b := range F.Blocks {
-			for _, ins := range b.Instrs {
-				call, ok := ins.(*ssa.Call)
-				if !ok || call.Call.StaticCallee() == nil || call.Call.StaticCallee().String() != "time.Since" || len(call.Call.Args) != 1 {
-					continue
-				}
-				if owner, f, _ := an.FieldOf(call.Call.Args[0]); owner != nil && namedOf(owner) == p.Session {
-					started[f] = true
+		for _, g := range c.P.ModuleFuncs() {
+			// (the age test may live in a method of the session: `g.expired(timeout)`)
+			if prog.PkgPathOf(g) != pkg || g.Blocks == nil {
+				continue
+			}
+			for _, b := range g.Blocks {
+				for _, ins := range b.Instrs {
+					call, ok := ins.(*ssa.Call)
+					if !ok || call.Call.StaticCallee() == nil || call.Call.StaticCallee().String() != "time.Since" || len(call.Call.Args) != 1 {
+						continue
+					}
+					if owner, f, _ := an.FieldOf(call.Call.Args[0]); owner != nil && namedOf(owner) == p.Session {
+						started[f] = true
+					}
 				}
 			}
 		}
